@@ -483,6 +483,15 @@ def handleMerge (req : Json) : Except String Json := do
   let E : Merge.Env := { O := O, cfg := cfg, S := S, render := render }
   match req.getObjVal? "want" with
   | .ok (.str "disjoint") => pure (Json.mkObj [("ok", .bool (Merge.disjoint S base ld rd))])
+  | .ok (.str "cellwise") =>
+      let side := fun (s : String) => (do
+        let ds ← Merge.decideMerge E base ld rd
+        applyAs s base (ds.map Merge.MD.toDecision) : Except Err J)
+      pure (Json.mkObj [("ok", .bool (Merge.cellwise base ld rd && wf base ld && wf base rd)),
+                        ("merged", reply (Merge.mergeApply E base ld rd) encJ),
+                        ("both", reply (Merge.patchBoth base ld rd) encJ),
+                        ("as_local", reply (side "local") encJ), ("as_remote", reply (side "remote") encJ),
+                        ("local", reply (patch base ld) encJ), ("remote", reply (patch base rd) encJ)])
   | .ok (.str "keywise") =>
       let side := fun (s : String) => (do
         let ds ← Merge.decideMerge E base ld rd
